@@ -174,6 +174,13 @@ def iter_cfg(a, b, adv="TRUE", with_adv="FALSE", peek="TRUE"):
             f"  WithAdvance = {with_adv}\n  FixPeekSkip = {peek}\nCHECK_DEADLOCK FALSE\n")
 
 
+def live_cfg(skip, adv, props):
+    """IterLive: temporal properties under weak fairness (SPECIFICATION, no state constraint)."""
+    return ("SPECIFICATION LSpec\nINVARIANT StepRefines\n" + "".join(f"PROPERTY {x}\n" for x in props) +
+            "CONSTANTS\n  FixLastChar = TRUE\n  FixExhaust = TRUE\n  FixAdvance = TRUE\n  WithAdvance = FALSE\n  FixPeekSkip = TRUE\n"
+            f"  SkipConsumes = {skip}\n  AdvanceOnSwitch = {adv}\nCHECK_DEADLOCK FALSE\n")
+
+
 def ff_cfg(a):
     return f"INIT FInit\nNEXT FNext\nINVARIANT Refines\nCONSTANTS\n  FixCandidates = {a}\nCHECK_DEADLOCK FALSE\n"
 
@@ -203,6 +210,12 @@ MODEL_LEGS = {
     "C17": lambda q: [
         ("M-Minimize-keywords-unbounded-ids", "Pipeline", pipe_cfg("FALSE", "FALSE", 0), dict(CFGS="U_PipeW", MAXLEN=4), False),
         ("M-Minimize-keywords-2-bit-group-ids", "Pipeline", pipe_cfg("FALSE", "FALSE", 2), dict(CFGS="U_PipeW", MAXLEN=4), True),
+    ],
+    "C07": lambda q: [
+        ("M-IterLive", "IterLive", live_cfg("TRUE", "TRUE", ["CallReturns", "ScanTerminates", "CursorMonotone"]),
+         dict(CFGS="U_C06", SYMS="Syms_C06", MAXLEN=3, HI=40 if q else 400), False),
+        ("M-IterLive-skip-does-not-consume", "IterLive", live_cfg("FALSE", "TRUE", ["CallReturns"]), dict(CFGS="U_C06", SYMS="Syms_C06", MAXLEN=3, HI=40), True),
+        ("M-IterLive-switch-does-not-advance", "IterLive", live_cfg("TRUE", "FALSE", ["ScanTerminates"]), dict(CFGS="U_C06", SYMS="Syms_C06", MAXLEN=3, HI=40), True),
     ],
     "C10": lambda q: [
         ("M-IterImpl-advance", "IterImpl", iter_cfg("TRUE", "TRUE", "TRUE", "TRUE"), dict(CFGS="U_C10", SYMS="Syms_C06", MAXLEN=3 if q else 4, HI=6), False),
